@@ -337,6 +337,27 @@ def leaf_checks(ctx, rng):
                                                                       '%.3g' % np.abs(np.asarray(got).reshape(-1) - ref).max()), case)
 
 
+def energy_option_leaf(ctx, rng):
+    """Leaf level for an option whose effect is a termination: the energy threshold has to be applied on EVERY way out of the
+    single-IMF extraction, also when the extrema run out after a few mean removals. Judged by C04's iterate model (imported: the
+    reference is independent of the library's own stage functions) on short records built to leave the extraction that way."""
+    from . import C04
+    for _ in range(160):
+        n = int(rng.integers(40, 91))
+        t = np.arange(n)
+        x = (np.sin(2 * np.pi * t / float(rng.uniform(25, 70)) + float(rng.uniform(0, 6))) * float(rng.uniform(.5, 2))
+             + float(rng.uniform(.05, .4)) * np.exp(-((t - float(rng.uniform(5, n - 5))) / float(rng.uniform(1.5, 4))) ** 2) * float(gens.pick(rng, [-1, 1]))
+             + float(rng.uniform(-1, 1)) * t / n)
+        case = {'kind': 'gni', 'family': 'swell+bump+trend', 'x': x,
+                'opts': {'stop_method': 'sd', 'sd_thresh': float(gens.pick(rng, [.05, .1, .3])), 'env_step_size': 1.0, 'max_iters': 1000,
+                         'energy_thresh': float(gens.pick(rng, [3, 5, 10]))},
+                'envelope_opts': {'interp_method': 'splrep'}, 'extrema_opts': {'pad_width': 2}, 'presentation': 'plain'}
+        cls = C04.check_case(ctx, case)
+        ctx.count('energy_option_leaf_cases')
+        if cls == 'noext@k>1':
+            ctx.count('energy_option_leaf_cases_where_extrema_ran_out')
+
+
 def variant_call(S, name, route, I, E, X, x, npr):
     """A zero-noise / deterministic call of one variant with the options delivered by one route."""
     extra = dict(max_imfs=2)
@@ -423,6 +444,8 @@ def run_shard(ctx):
     cells = grid()
     if ctx.shard % 4 == 0:
         leaf_checks(ctx, ctx.rng)
+    if ctx.shard % 4 == 1:
+        energy_option_leaf(ctx, ctx.rng)
     if ctx.shard % 4 == 2:
         start_method_probe(ctx, ctx.rng, 'spawn' if ctx.shard % 8 == 2 else 'forkserver')
     tdir = os.path.join(WORK, 'C06', 'trace_%d' % ctx.shard)
